@@ -65,6 +65,13 @@ def run(ctx):
                     width_ok = a[0][0] == "param" and (a[0][2] or "").startswith(("l_fingerprint", "bits_remainder"))
                     slots = a[1]
                     slots_ok = (slots == mk("Mul", ("param", 2, "bucketsize"), ("param", 3, "n_buckets"))) or (slots == mk("Shl", const(1), ("param", 1, "bits_quotient")))
+                    # re-allocation of a packed table with its own shape: (its slot width, its slot count)
+                    selfp_ = ("param", 1, "self")
+                    if slots[0] == "call" and slots[1].endswith("IntVec>::len") and len(slots[2]) == 1 and slots[2][0][0] == "field" and slots[2][0][1] == selfp_:
+                        fld_t = slots[2][0]
+                        own_width = a[0] == ("call", "<succinct::IntVector as succinct::IntVec>::element_bits", (fld_t,)) or a[0] == ("field", selfp_, "l_fingerprint")
+                        if own_width:
+                            width_ok = slots_ok = True
                     ctx.check(width_ok and slots_ok, "R11-dimension", "%s:call-site" % f.key, t.span,
                               "all_zero_intvector(%s, %s): (bits per slot, slot count)" % (fmt(a[0]), fmt(a[1])),
                               "all_zero_intvector is called with (%s, %s): expected (bits per slot, number of slots)" % (fmt(a[0]), fmt(a[1])))
@@ -116,6 +123,12 @@ def run(ctx):
         ws = [w for w in all_writes(ctx, f) if self_field(w) == fld and w["how"] == "store" and len(w["path"]) == 1]
         n_alloc += 1
         okc = len(ws) == 1 and ws[0]["value"] is not None and pred(ws[0]["value"])
+        if not okc and len(ws) == 1 and ws[0]["value"] is not None:
+            # the same helper the constructor uses, fed with the table's own shape: all_zero_intvector(slot width, self.<fld>.len())
+            v_ = ws[0]["value"]
+            if v_[0] == "call" and v_[1] == "helpers::all_zero_intvector" and len(v_[2]) == 2 and v_[2][1] == ("call", "<succinct::IntVector as succinct::IntVec>::len", (S(fld),)) \
+                    and (v_[2][0] == ("call", "<succinct::IntVector as succinct::IntVec>::element_bits", (S(fld),)) or v_[2][0] == S("l_fingerprint")):
+                okc = True
         if not ws:
             from .common import elementwise_reset
             if elementwise_reset(ctx, f, fld) or any(w.get("name") == "clear" and self_field(w) == fld for w in all_writes(ctx, f)):
